@@ -83,6 +83,9 @@ def render_script(runs):
         remap = {t: i for i, t in enumerate(tids)}
         a = dict(r["attrs"])
         a["threads"] = str(max(1, len(tids)))
+        if a.get("trace"):
+            # decisions that chose a thread which no longer exists are dropped, the others renumbered
+            a["trace"] = ".".join(str(remap[int(c)]) for c in a["trace"].split(".") if c != "" and int(c) in remap)
         order = ["threads", "policy", "sched", "hash", "reset", "trace"]
         out.append("run " + " ".join("%s=%s" % (k, a[k]) for k in order if k in a))
         for t, op in r["ops"]:
@@ -113,20 +116,21 @@ class Sim:
             self.cold_cache[key] = (m.group(1), m.group(2), m.group(4))
         return self.cold_cache[key]
 
-    def replay(self, text, log=False):
+    def replay(self, text, log=False, watchdog=30):
         self.replays += 1
         path = os.path.join(self.workdir, "cand_%d.script" % os.getpid())
         with open(path, "w") as f:
             f.write(text)
-        cmd = [BIN, "replay", "--script", path, "--watchdog", "30"]
+        cmd = [BIN, "replay", "--script", path, "--watchdog", str(watchdog)]
         if log:
             cmd.append("--log")
         p = subprocess.run(cmd, stdout=subprocess.PIPE, stderr=subprocess.PIPE, text=True, timeout=300)
         res = {"runs": [], "evals": [], "news": {}, "rc": p.returncode, "raw": p.stdout, "log": []}
         for line in p.stdout.splitlines():
             if line.startswith("RUN "):
-                m = re.match(r"RUN (\d+) threads=(\d+) steps=(\d+) log=(\S+) diverged=(\d) trace=(\S*) abort=(.*)$", line)
-                res["runs"].append({"i": int(m.group(1)), "steps": int(m.group(3)), "log": m.group(4), "diverged": m.group(5) == "1", "trace": m.group(6), "abort": None if m.group(7) == "-" else m.group(7)})
+                m = re.match(r"RUN (\d+) threads=(\d+) steps=(\d+) log=(\S+) diverged=(\d) trace=(\S*) owners=(\S*) abort=(.*)$", line)
+                owners = [tuple(int(x) for x in o.split(":")) for o in m.group(7).split(".") if o]
+                res["runs"].append({"i": int(m.group(1)), "steps": int(m.group(3)), "log": m.group(4), "diverged": m.group(5) == "1", "trace": m.group(6), "owners": owners, "abort": None if m.group(8) == "-" else m.group(8)})
             elif line.startswith("E ") or line.startswith("N "):
                 head, _, text_ = line.partition(" ## ")
                 tok = head.split(" ")
@@ -151,12 +155,12 @@ def abort_class(reason):
 
 def shows(sim, text, viol):
     """Does replaying `text` in a fresh process show violation `viol`? Returns (bool, info)."""
-    res = sim.replay(text)
     ob = viol["obligation"]
-    if res["rc"] == 2:
+    want = abort_class(viol["detail"]) if ob == "P" else None
+    res = sim.replay(text, watchdog=8 if want == "watchdog" else 30)
+    if res["rc"] == 2 and want != "watchdog":
         return False, {"res": res, "note": "replay harness error"}
     if ob == "P":
-        want = abort_class(viol["detail"])
         for r in res["runs"]:
             if r["abort"] and abort_class(r["abort"]) == want:
                 return True, {"res": res, "got": r["abort"], "expected": "every operation returns", "where": "run %d" % r["i"]}
@@ -178,10 +182,15 @@ def shows(sim, text, viol):
 def adopt_traces(runs, res):
     """Write the traces the replay actually took into the script (so it replays without fallback)."""
     for r, rr in zip(runs, res["runs"]):
+        # canonical thread numbering first, so that the owners reported by the replay match the script
+        tids = sorted(set(t for t, _ in r["ops"]))
+        remap = {t: i for i, t in enumerate(tids)}
+        r["ops"] = [(remap[t], op) for t, op in r["ops"]]
         r["attrs"]["policy"] = "fixed"
         r["attrs"]["trace"] = rr["trace"]
         r["attrs"].pop("sched", None)
         r["attrs"]["sched"] = "0"
+        r["owners"] = list(rr.get("owners", []))
     return runs
 
 
@@ -211,6 +220,8 @@ def ddmin(items, test, budget):
 
 def minimise(sim, text, viol, max_replays=400):
     runs = parse_script(text)
+    if viol["obligation"] == "P" and abort_class(viol["detail"]) == "watchdog":
+        max_replays = 14  # every reproducing candidate costs a watchdog period
     budget = [max_replays]
     original_ops = count_ops(runs)
 
@@ -234,16 +245,46 @@ def minimise(sim, text, viol, max_replays=400):
                     runs = runs[k:]
             if len(runs) > 1:
                 runs = ddmin(runs, ok, budget)
-    # 2. fewer operations (all runs together; items are (run index, op index))
+    # 2. fewer operations (all runs together; items are (run index, op index)). The schedule is
+    # kept aligned: a decision taken while a removed operation was at a yield point goes with it.
+    good, info = shows(sim, render_script(runs), viol)
+    if good and len(info["res"]["runs"]) == len(runs):
+        runs = adopt_traces(runs, info["res"])
     items = [(ri, oi) for ri, r in enumerate(runs) for oi in range(len(r["ops"]))]
 
     def build(sel):
         keep = set(sel)
         out = []
         for ri, r in enumerate(runs):
-            ops = [op for oi, op in enumerate(r["ops"]) if (ri, oi) in keep]
-            if ops:
-                out.append({"attrs": dict(r["attrs"]), "ops": ops})
+            kept = [(oi, t, op) for oi, (t, op) in enumerate(r["ops"]) if (ri, oi) in keep]
+            if not kept:
+                continue
+            nr = {"attrs": dict(r["attrs"]), "ops": [(t, op) for _, t, op in kept]}
+            owners = r.get("owners")
+            trace = [c for c in r["attrs"].get("trace", "").split(".") if c != ""]
+            if owners is not None and len(owners) == len(trace):
+                # per-thread operation index of every operation, before and after
+                seen = {}
+                old_idx = {}
+                for oi, (t, op) in enumerate(r["ops"]):
+                    old_idx[oi] = (t, seen.get(t, 0))
+                    seen[t] = seen.get(t, 0) + 1
+                seen = {}
+                new_of = {}
+                for oi, t, op in kept:
+                    new_of[old_idx[oi]] = seen.get(t, 0)
+                    seen[t] = seen.get(t, 0) + 1
+                ntrace, nown = [], []
+                for c, (ot, oo) in zip(trace, owners):
+                    if ot == 255:
+                        ntrace.append(c)
+                        nown.append((ot, oo))
+                    elif (ot, oo) in new_of:
+                        ntrace.append(c)
+                        nown.append((ot, new_of[(ot, oo)]))
+                nr["attrs"]["trace"] = ".".join(ntrace)
+                nr["owners"] = nown
+            out.append(nr)
         return out
 
     def ok_items(sel):
@@ -253,6 +294,44 @@ def minimise(sim, text, viol, max_replays=400):
     if len(items) > 1:
         items = ddmin(items, ok_items, budget)
         runs = build(items)
+    # 2b. interleaving-dependent violations: removing operations shifts the schedule, so a smaller
+    # history may need its own schedule. Search seeded schedules for every candidate.
+    multi = any(len(set(t for t, _ in r["ops"])) > 1 for r in runs)
+    if multi and count_ops(runs) > 3 and not (viol["obligation"] == "P" and abort_class(viol["detail"]) == "watchdog"):
+        t_end = time.time() + 90
+        found = {}
+
+        def with_policy(cand, policy, seed_):
+            return [{"attrs": {k: v for k, v in dict(r["attrs"], policy=policy, sched=str(seed_)).items() if k != "trace"}, "ops": r["ops"]} for r in cand]
+
+        def ok_any_schedule(sel):
+            cand = build2(sel)
+            if not cand or time.time() > t_end:
+                return False
+            tries = [cand] + [with_policy(cand, "rw", k) for k in range(1, 11)] + [with_policy(cand, "pct2", k) for k in range(1, 7)]
+            for c in tries:
+                good_, info_ = shows(sim, render_script(c), viol)
+                if good_:
+                    found[frozenset(sel)] = adopt_traces([dict(r) for r in c], info_["res"]) if len(info_["res"]["runs"]) == len(c) else c
+                    return True
+            return False
+
+        base_runs = runs
+        items2 = [(ri, oi) for ri, r in enumerate(base_runs) for oi in range(len(r["ops"]))]
+
+        def build2(sel):
+            keep = set(sel)
+            out = []
+            for ri, r in enumerate(base_runs):
+                ops = [(t, op) for oi, (t, op) in enumerate(r["ops"]) if (ri, oi) in keep]
+                if ops:
+                    out.append({"attrs": dict(r["attrs"]), "ops": ops})
+            return out
+
+        b2 = [120]
+        items2 = ddmin(items2, ok_any_schedule, b2)
+        if frozenset(items2) in found:
+            runs = found[frozenset(items2)]
     # 3. simpler schedule: sequential if the violation survives
     seq = [{"attrs": {k: v for k, v in dict(r["attrs"], policy="seq", sched="0").items() if k != "trace"}, "ops": r["ops"]} for r in runs]
     budget[0] -= 1
@@ -372,7 +451,7 @@ def run_check(tier, seed):
     for (w0, nw, runs, conc) in cfg["explore"]:
         for w in range(w0, w0 + nw):
             out = os.path.join(work, "explore_%d.json" % w)
-            jobs.append(("explore%d" % w, [BIN, "explore", "--seed", str(seed), "--worker", str(w), "--runs", str(runs), "--seconds", str(cfg["seconds_cap"]), "--conc", str(conc), "--out", out], out))
+            jobs.append(("explore%d" % w, [BIN, "explore", "--seed", str(seed), "--worker", str(w), "--runs", str(runs), "--seconds", str(cfg["seconds_cap"]), "--conc", str(conc), "--watchdog", "30", "--out", out], out))
             explore_ids.append(w)
     # determinism self-check: two extra copies of worker 0 (prefix of its runs), digests compared
     det_outs = []
@@ -436,11 +515,18 @@ def run_check(tier, seed):
         elif d["mode"] == "sweep":
             sweeps.append(d)
             for v in d["violations"]:
-                cands.append(sweep_candidate(v, d))
+                if v["obligation"] == "P":
+                    cands.append({"obligation": "P", "key": "", "detail": v["detail"], "history": v["history"], "source": "sweep %d" % d["index"]})
+                else:
+                    cands.append(sweep_candidate(v, d))
         elif d["mode"] == "hashorder":
             hashres = d
             for v in d["violations"]:
-                hist = "run threads=1 policy=seq sched=0 hash=%d reset=1\nt0 q %s\nend\n" % (v["hash_seed"], v["key"])
+                if v["obligation"] == "P":
+                    cands.append({"obligation": "P", "key": "", "detail": v["detail"], "history": v["history"], "source": "hashorder"})
+                    continue
+                # as in the hashorder worker: statics initialised under seed 0, then asked under the other seed
+                hist = "run threads=1 policy=seq sched=0 hash=0 reset=1\nt0 q %s\nend\nrun threads=1 policy=seq sched=0 hash=%d reset=1\nt0 q %s\nend\n" % (v["key"], v["hash_seed"], v["key"])
                 cands.append({"obligation": "H", "key": v["key"], "detail": v["detail"], "history": hist, "source": "hashorder"})
 
     # determinism self-check
@@ -448,8 +534,9 @@ def run_check(tier, seed):
     try:
         a = [l for l in open(det_outs[0]).read().splitlines() if l.startswith("D ")]
         b = [l for l in open(det_outs[1]).read().splitlines() if l.startswith("D ")]
-        det_ok = bool(a) and a == b
-        det_n = len(a)
+        free = sum(1 for x, y in zip(a, b) if " FREE " in x or " FREE " in y)
+        det_ok = len(a) == len(b) and all(x == y for x, y in zip(a, b) if " FREE " not in x and " FREE " not in y)
+        det_n = len(a) - free
     except Exception:  # noqa
         det_n = 0
     if det_ok is False:
@@ -497,7 +584,16 @@ def run_check(tier, seed):
     known_hits = []
     seen_keys = set()
     unconfirmed = []
+
+    def cand_rank(c):
+        if c["obligation"] != "P":
+            return 0
+        return 2 if abort_class(c["detail"]) == "watchdog" else 1
+
+    cands.sort(key=cand_rank)
     for c in cands:
+        if cand_rank(c) == 2 and (confirmed or known_hits):
+            continue  # a hang costs a watchdog period per replay; other violations are already reported
         ident = (c["obligation"] if c["obligation"] in ("P", "R") else "A", c["key"] if c["obligation"] != "P" else abort_class(c["detail"]))
         if ident in seen_keys:
             continue
@@ -655,6 +751,7 @@ def write_evidence(tier, seed, t0, explore, sweeps, hashres, det_ok, det_n, cros
         "determinism_selfcheck": {"runs_compared": det_n, "identical": det_ok},
         "components": {"real": ["all of tyme4rs (built from /repo's working tree with feature verif)", "lazy_static", "regex", "std::sync::Mutex incl. poisoning", "std::thread (real OS threads, released one at a time)"], "simulated": ["choice of the running thread at every yield point", "hash-map iteration order (seeded hasher behind the verif seam)"], "stubbed": []},
         "build_s": round(build_s, 1),
+        "runs_that_left_simulator_control_free_run": tot("free_run_runs"),
         "harness_errors": harness,
         "known_findings_hit": [k.get("id", "") for k, _ in known_hits],
         "replays_written": [p for p, _ in confirmed],
